@@ -431,6 +431,13 @@ func runC04(c *eng.Ctx) {
 		c.Check(nRaw >= 2 && nSlot >= 1, "raw-stores-found", nil, f, "values are taken over (first value of a position, replacement for First/Last)", fmt.Sprintf("%d raw stores, %d slot stores", nRaw, nSlot))
 	})
 
+	calcSlotNoWrap(c)
+	calculatorExhaustive(c)
+}
+
+func calcSlotNoWrap(c *eng.Ctx) {
+	p := c.P
+	_ = p
 	// ---- slot of a timestamp inside its family: the offset from the family start is never folded below the family's length ------
 	c.Rule("LAYOUT", "pkg/timeutil.{day,month,year}.CalcSlot{no wrap-around inside one family}", func() {
 		// length of one family per calculator (a table, confirmed by reading CalcFamilyStartTime / CalcFamilyEndTime):
@@ -461,7 +468,11 @@ func runC04(c *eng.Ctx) {
 			c.Check(quo == 1, name+":one-division", nil, f, "CalcSlot divides once by the interval", fmt.Sprintf("%d divisions", quo))
 		}
 	})
+}
 
+func calculatorExhaustive(c *eng.Ctx) {
+	p := c.P
+	_ = p
 	c.Rule("EXHAUSTIVE", "pkg/timeutil.Interval{Type, Calculator}", func() {
 		pk := p.Package("pkg/timeutil")
 		if pk == nil {
